@@ -96,6 +96,15 @@ class Conn:
         elif not self.reader.at_eof():
             self.reader.feed_eof()
 
+    def close_peer(self, delay=0.0):
+        """the SMSC closes its socket (both directions): the ESME reads EOF; a later shutdown(SHUT_WR) of the ESME's side fails"""
+        if delay > 0:
+            self.smsc.loop.call_later(delay, self.close_peer)
+        else:
+            self.transport.peer_closed = True
+            if not self.reader.at_eof():
+                self.reader.feed_eof()
+
     def reset(self, delay=0.0):
         if delay > 0:
             self.smsc.loop.call_later(delay, self.reset)
